@@ -5,7 +5,9 @@ package metadata
 import (
 	"context"
 	"fmt"
+	"runtime/debug"
 	"sort"
+	"strconv"
 	"strings"
 	"testing"
 	"unsafe"
@@ -115,10 +117,30 @@ func (r *c28Ref) canon() string {
 		return "<none>"
 	}
 	var sb strings.Builder
+	sb.Grow(96)
 	for _, k := range r.keys() {
-		fmt.Fprintf(&sb, "%s=%q;", k, r.get(k))
+		c28WriteKV(&sb, k, r.get(k), -1)
 	}
 	return sb.String()
+}
+
+// c28WriteKV writes k=[v1,v2]; (and /cap when c>=0). Values never contain
+// the separators (they are "1", "2" or scribble marks).
+func c28WriteKV(sb *strings.Builder, k string, vals []string, c int) {
+	sb.WriteString(k)
+	sb.WriteString("=[")
+	for i, v := range vals {
+		if i > 0 {
+			sb.WriteByte(',')
+		}
+		sb.WriteString(v)
+	}
+	sb.WriteByte(']')
+	if c >= 0 {
+		sb.WriteByte('/')
+		sb.WriteString(strconv.Itoa(c))
+	}
+	sb.WriteByte(';')
 }
 
 func c28RefJoin(rs ...*c28Ref) *c28Ref {
@@ -142,8 +164,9 @@ func c28Canon(md MD, present bool) string {
 	}
 	sort.Strings(ks)
 	var sb strings.Builder
+	sb.Grow(96)
 	for _, k := range ks {
-		fmt.Fprintf(&sb, "%s=%q;", k, []string(md[k]))
+		c28WriteKV(&sb, k, md[k], -1)
 	}
 	return sb.String()
 }
@@ -160,8 +183,9 @@ func c28CanonCap(md MD) string {
 	}
 	sort.Strings(ks)
 	var sb strings.Builder
+	sb.Grow(96)
 	for _, k := range ks {
-		fmt.Fprintf(&sb, "%s=%q/%d;", k, []string(md[k]), cap(md[k]))
+		c28WriteKV(&sb, k, md[k], cap(md[k]))
 	}
 	return sb.String()
 }
@@ -182,13 +206,22 @@ func c28SameStrings(a, b []string) bool {
 // incoming MD, exactly as stored.
 func c28RawCanon(ctx context.Context) string {
 	var sb strings.Builder
+	sb.Grow(96)
 	if raw, ok := ctx.Value(mdOutgoingKey{}).(rawMD); ok {
-		fmt.Fprintf(&sb, "out{md:%s added:%q %d/%d}", c28CanonCap(raw.md), raw.added, len(raw.added), cap(raw.added))
+		sb.WriteString("out{md:")
+		sb.WriteString(c28CanonCap(raw.md))
+		sb.WriteString(" added:")
+		for _, kv := range raw.added {
+			sb.WriteByte('(')
+			sb.WriteString(strings.Join(kv, ","))
+			sb.WriteByte(')')
+		}
+		sb.WriteString(" " + strconv.Itoa(len(raw.added)) + "/" + strconv.Itoa(cap(raw.added)) + "}")
 	} else {
 		sb.WriteString("out{-}")
 	}
 	if in, ok := ctx.Value(mdIncomingKey{}).(MD); ok {
-		fmt.Fprintf(&sb, " in{%s}", c28CanonCap(in))
+		sb.WriteString(" in{" + c28CanonCap(in) + "}")
 	} else {
 		sb.WriteString(" in{-}")
 	}
@@ -239,17 +272,12 @@ type c28World struct {
 	cur, sav *c28CtxRec
 	maxPairs int
 	fails    []seqx.Fail
-	failed   map[string]bool
 }
 
 func (w *c28World) fail(class, format string, a ...any) {
-	if w.failed == nil {
-		w.failed = map[string]bool{}
-	}
 	if len(w.fails) > 0 {
 		return // only the FIRST divergence of a history is reported: later ones are consequences
 	}
-	w.failed[class] = true
 	w.fails = append(w.fails, seqx.Fail{Prop: "C28", Key: class, Desc: fmt.Sprintf(format, a...)})
 }
 
@@ -288,22 +316,28 @@ func (w *c28World) obsCtx(name string, c *c28CtxRec) {
 		return
 	}
 	before := c28RawCanon(c.ctx)
+	// what the reference says (computed once per observation)
+	wantOut, wantIn := c.out.canon(), c.in.canon()
+	wantOutV, wantInV := make([][]string, len(c28Queries)), make([][]string, len(c28Queries))
+	for i, q := range c28Queries {
+		wantOutV[i], wantInV[i] = c.out.get(q), c.in.get(q)
+	}
 	// ---- outgoing ----
 	readOut := func(class, when string) MD {
 		md, ok := FromOutgoingContext(c.ctx)
 		if ok != (c.out != nil) {
 			w.fail(class, "%s %s: FromOutgoingContext ok=%v, reference has outgoing metadata=%v", name, when, ok, c.out != nil)
 		}
-		if got, want := c28Canon(md, ok), c.out.canon(); got != want {
+		if got, want := c28Canon(md, ok), wantOut; got != want {
 			w.fail(class, "%s %s: FromOutgoingContext=%s, reference multimap %s", name, when, got, want)
 		}
 		return md
 	}
 	valsOut := func(class, classFull, when string, full MD) [][]string {
 		var res [][]string
-		for _, q := range c28Queries {
+		for qi, q := range c28Queries {
 			v := ValueFromOutgoingContext(c.ctx, q)
-			if want := c.out.get(q); !c28SameStrings(v, want) {
+			if want := wantOutV[qi]; !c28SameStrings(v, want) {
 				w.fail(class, "%s %s: ValueFromOutgoingContext(%q)=%q, reference %q", name, when, q, v, want)
 			}
 			if full != nil {
@@ -336,7 +370,7 @@ func (w *c28World) obsCtx(name string, c *c28CtxRec) {
 		if !ok {
 			flat = nil
 		}
-		if got, want := flat.canon(), c.out.canon(); got != want {
+		if got, want := flat.canon(), wantOut; got != want {
 			w.fail("raw-merge", "%s: fromOutgoingContextRaw merges to %s, reference %s", name, got, want)
 		}
 	}
@@ -355,16 +389,16 @@ func (w *c28World) obsCtx(name string, c *c28CtxRec) {
 		if ok != (c.in != nil) {
 			w.fail(class, "%s %s: FromIncomingContext ok=%v, reference has incoming metadata=%v", name, when, ok, c.in != nil)
 		}
-		if got, want := c28Canon(md, ok), c.in.canon(); got != want {
+		if got, want := c28Canon(md, ok), wantIn; got != want {
 			w.fail(class, "%s %s: FromIncomingContext=%s, reference multimap %s", name, when, got, want)
 		}
 		return md
 	}
 	valsIn := func(class, classFull, when string, full MD) [][]string {
 		var res [][]string
-		for _, q := range c28Queries {
+		for qi, q := range c28Queries {
 			v := ValueFromIncomingContext(c.ctx, q)
-			if want := c.in.get(q); !c28SameStrings(v, want) {
+			if want := wantInV[qi]; !c28SameStrings(v, want) {
 				w.fail(class, "%s %s: ValueFromIncomingContext(%q)=%q, reference %q", name, when, q, v, want)
 			}
 			if full != nil {
@@ -402,6 +436,7 @@ func (w *c28World) observe() {
 
 func (w *c28World) key() string {
 	var sb strings.Builder
+	sb.Grow(96)
 	fmt.Fprintf(&sb, "m[%s|%s] n[%s|%s]", c28CanonCap(w.m), w.rm.canon(), c28CanonCap(w.n), w.rn.canon())
 	for _, c := range []*c28CtxRec{w.cur, w.sav} {
 		if c == nil {
@@ -722,6 +757,7 @@ func TestVerif_C28_Metadata(t *testing.T) {
 	const P = "C28"
 	r := vk.Start(t, "c28_metadata", "model_checking", P)
 	defer r.Finish()
+	defer debug.SetGCPercent(debug.SetGCPercent(800)) // allocation-heavy, memory is plentiful
 	r.Rule(P, "breadth-first over ALL operation sequences up to the depth bound from three start states, each run on fresh real MDs/contexts next to a reference ordered multimap (a flat list of lower-cased key/value pairs); keys {k,K,x}, values {1,2}. Scenario md: New/Pairs/Set/Append/Delete/Copy/Join on two caller-owned MDs. Scenario ctx: NewOutgoingContext/AppendToOutgoingContext/NewIncomingContext (API-built and raw mixed-case MDs), FromOutgoingContext/FromIncomingContext loaded into a register and mutated, two context registers (save/swap) so that sibling contexts derived from one parent coexist. Scenario ctx-branch: same alphabet from a context that already carries a base MD and three appends. After every step (quick tier: after the last step of every explored history, which still observes every reached state) every read API (From*, ValueFrom* over queries {k,K,x,X,q}, fromOutgoingContextRaw, Get, Len, Copy) is compared with the reference, then everything returned is mutated in place and all is read again. A state = canonical private contents (rawMD.md, rawMD.added incl. len/cap, incoming MD, value-slice capacities, sharing of the added array) + reference multimaps; distinct states are the non-trivial cases")
 	r.Assume(P, "MDs handed to NewOutgoingContext/NewIncomingContext are never touched again by the harness (documented precondition); user-built MDs with two keys differing only in case are excluded (map-order dependent by design); MD.Get/Set/Append/Delete are only applied to MDs whose stored keys are lower-case (built by the API)")
 	r.Assume(P, "ValueFromOutgoingContext/ValueFromIncomingContext results are treated as caller-owned copies like the FromX results; no operation may grow an MD or context beyond the stated number of values (such ops are skipped)")
@@ -751,13 +787,13 @@ func TestVerif_C28_Metadata(t *testing.T) {
 		Run: c28Runner(mdOps, mdInit, r.Thorough()),
 	})
 	seqx.BFS(r, []string{P}, seqx.Config{
-		Name: "ctx", Ops: c28Names(ctxOps), MaxDepth: r.Pick(5, 7), Parallel: 16,
-		Congruence: r.Thorough(), CongruenceMax: 200, MinStates: 50,
-		Run: c28Runner(ctxOps, ctxInit, r.Thorough()),
-	})
-	seqx.BFS(r, []string{P}, seqx.Config{
 		Name: "ctx-branch", Ops: c28Names(ctxOps), MaxDepth: r.Pick(4, 6), Parallel: 16,
 		Congruence: r.Thorough(), CongruenceMax: 200, MinStates: 50,
 		Run: c28Runner(ctxOps, branchInit, r.Thorough()),
+	})
+	seqx.BFS(r, []string{P}, seqx.Config{
+		Name: "ctx", Ops: c28Names(ctxOps), MaxDepth: r.Pick(5, 6), Parallel: 16,
+		Congruence: r.Thorough(), CongruenceMax: 200, MinStates: 50,
+		Run: c28Runner(ctxOps, ctxInit, r.Thorough()),
 	})
 }
